@@ -151,6 +151,10 @@ def judge(mode: str, cfg: dict, oracle: Oracle, rec: dict) -> dict[str, bool]:
             if not (math.isclose(vs, e["vsys"], rel_tol=1e-12) and math.isclose(m, e["m"], rel_tol=1e-12)):
                 ok = False
     v["FlowSplit"] = ok
+    # RowWise: every field generation of one search is given the same rotation window / step / outlines (the user's), whatever
+    # stage of the search asks for it (bounds, bisection midpoints, exhaustive tail)
+    gc = rec.get("gen_calls", [])
+    v["SameGeneratorArguments"] = len(set(gc)) <= 1 and all(c[1] is not None and c[2] is not None for c in gc)
     return v
 
 
